@@ -211,6 +211,9 @@ func (pi *PrefixInformation) unmarshal(b []byte) error {
 	// l := int(b[1]*8) - 2 // Exclude type and length fields from value's length.
 
 	value := b[2:]
+	if value[0] > 128 { // prefix length of an IPv6 prefix
+		return fmt.Errorf("ndp: invalid prefix information prefix length: %d", value[0])
+	}
 	pi.OnLink = (value[1] & 0x80) != 0
 	pi.AutonomousAddressConfiguration = (value[1] & 0x40) != 0
 	pi.ValidLifetime = time.Duration(binary.BigEndian.Uint32(value[2:6])) * time.Second
